@@ -19,6 +19,7 @@ func init() {
 	reg0("C17Clean", HarnessC17Clean)
 	reg1("C01Agree", SetupC01Agree, HarnessC01Agree)
 	reg1("C01Lookup", SetupC01Lookup, HarnessC01Lookup)
+	reg1("C02History", SetupC02History, HarnessC02History)
 	reg1("C08Tsr", SetupC08Tsr, HarnessC08Tsr)
 	reg1("C16Alloc", SetupC16Alloc, HarnessC16Alloc)
 	reg1("C09Host", SetupC09Host, HarnessC09Host)
